@@ -209,10 +209,12 @@ def representation(chk):
     class _Strip(ast.NodeTransformer):
         def visit_Call(self, node):
             self.generic_visit(node)
-            if isinstance(node.func, ast.Attribute) and node.func.attr == "contiguous" and not node.args:
+            if isinstance(node.func, ast.Attribute) and node.func.attr == "contiguous" and not node.args and all(k.arg == "memory_format" for k in node.keywords):
                 return node.func.value
-            # a cast of the zero-point to the dtype of the scale keeps its value (it is what makes the negation safe, see below)
-            if isinstance(node.func, ast.Attribute) and node.func.attr in ("to", "type") and len(node.args) == 1 and U(node.args[0]).endswith(".dtype") and not node.keywords:
+            # a cast of the zero-point to the dtype of the scale keeps its value (it is what makes the negation safe, see below);
+            # the keywords that say HOW the copy is made (non_blocking, copy, memory_format) do not change it
+            if isinstance(node.func, ast.Attribute) and node.func.attr in ("to", "type") and len(node.args) == 1 and U(node.args[0]).endswith(".dtype") \
+                    and all(k.arg in ("non_blocking", "copy", "memory_format") for k in node.keywords):
                 return node.func.value
             return node
 
